@@ -189,6 +189,7 @@ class Kind:
     known: Optional[Callable[[Any, str], Optional[str]]] = None
     compare: Optional[Callable[[str, str], bool]] = None
     shrink: Optional[Callable[[Any], Iterable[Any]]] = None
+    assemble: Optional[Callable[[Any, List[str]], str]] = None   # when model(args) returns several lines
 
 
 @dataclass
@@ -243,13 +244,23 @@ class Ctx:
                 self.samples.append({"stream": stream, "kind": kind.name, "args": cases[i], "impl": outs[i][:300]})
         # model
         if kind.model and self.driver_ok:
-            idx, lines = [], []
+            idx, lines, flat, spans = [], [], [], []
             for i, a in enumerate(cases):
                 l = kind.model(a)
                 if l is not None:
                     idx.append(i)
-                    lines.append(l)
-            mo = run_exe("modeldriver", lines)
+                    if isinstance(l, list):
+                        spans.append((len(flat), len(l)))
+                        flat.extend(l)
+                        lines.append(" ;; ".join(l))
+                    else:
+                        spans.append((len(flat), None))
+                        flat.append(l)
+                        lines.append(l)
+            fo = run_exe("modeldriver", flat)
+            mo = []
+            for (st, ln), i in zip(spans, idx):
+                mo.append(fo[st] if ln is None else kind.assemble(cases[i], fo[st:st + ln]))
             self.model_compared += len(lines)
             cmp = kind.compare or (lambda m, i: m == i)
             for i, l, m in zip(idx, lines, mo):
